@@ -1,8 +1,8 @@
 import CollectionsC.Proofs.Rbuf
-import CollectionsC.Generated.Funcs
+import CollectionsC.Generated.FuncsRbuf
 /-! # C19 — translation validation of the ring-buffer model
 
-`Generated/Funcs.lean` is re-translated from the current text of `src/cc_ring_buffer.c` on every
+`Generated/FuncsRbuf.lean` is re-translated from the current text of `src/cc_ring_buffer.c` on every
 build (`tools/gen_funcs.py`): `struct ring_buffer` and `struct ring_buffer_conf` as records with all
 their fields (the allocator triple as `Option Triple`), and **every function of the file** —
 `cc_rbuf_conf_init`, `cc_rbuf_conf_new`, `cc_rbuf_new`, `cc_rbuf_destroy`, `cc_rbuf_enqueue`,
@@ -20,6 +20,12 @@ and the model's ledger reports no fault either.  So an edit of the C text change
 and breaks the theorem about that function at build time; an edit that removes a guard and thereby lets an
 out-of-range access happen breaks `fault = false` even where the returned values would coincide.
 
+Block identity: the generated records carry ghost ids of the allocator blocks they live in (`id_` for the struct,
+`buf_id` for the slot array); an allocation takes the next id from the supply `nid`, `mem_free(x)` consumes the
+id of `x`, and touching or releasing a block whose id was already consumed in the same call is a `fault`.  The
+hand-written model counts blocks only, so the agreement for the constructor and the destructor reads: same
+ledger counts, no fault, and the ids released / owned are exactly the object's two blocks.
+
 Documented preconditions: `r.cap < 2 ^ 64` — the capacity is a `size_t` value (the model computes in
 `Nat`, the translated text wraps at `2^64`; they agree because every intermediate value is at most the
 capacity); `GenF.cc_rbuf_peek_range i` — the index is an `int` (generated from the declared type). -/
@@ -28,9 +34,9 @@ open CC
 
 /-- model state ↦ generated record (`capacity` is `cap` in the model; the struct's three allocator
 pointers all denote the state's triple) -/
-def ofRbuf (r : Rbuf) : GenF.ring_buffer :=
+def ofRbuf (r : Rbuf) (sid : Nat := 0) (bid : Nat := 0) : GenF.ring_buffer :=
   { size := r.size, capacity := r.cap, head := r.head, tail := r.tail, buf := r.buf,
-    mem_alloc := some r.triple, mem_calloc := some r.triple, mem_free := some r.triple }
+    mem_alloc := some r.triple, mem_calloc := some r.triple, mem_free := some r.triple, id_ := sid, buf_id := bid }
 
 /-- generated record ↦ model state -/
 def toRbuf (g : GenF.ring_buffer) : Rbuf :=
@@ -108,17 +114,22 @@ theorem rbuf_is_empty_agrees (r : Rbuf) : GenF.cc_rbuf_is_empty (ofRbuf r) = r.i
 /-- `cc_rbuf_size` (every state): the model has no function for it, the harness reads the field -/
 theorem rbuf_size_agrees (r : Rbuf) : GenF.cc_rbuf_size (ofRbuf r) = r.size := rfl
 
-/-- `cc_rbuf_conf_new`, for every triple, capacity and ledger (refusal of the first or the second
-allocation included): status code, the constructed object, the ledger; fault-free -/
-theorem rbuf_conf_new_agrees (t : Triple) (cap : Nat) (m : Mem) :
-    GenF.cc_rbuf_conf_new (confOf t cap) m =
-      ((Rbuf.newT t cap m).1.code, (Rbuf.newT t cap m).2.1.map ofRbuf, (Rbuf.newT t cap m).2.2, false) := by
+/-- `cc_rbuf_conf_new`, for every triple, capacity, ledger and id supply (refusal of the first or the second
+allocation included): status code, the constructed object (its two blocks carry the ids `nid` and `nid + 1`),
+the ledger, the id supply, the blocks released on the way (the struct, when the second allocation is refused);
+fault-free -/
+theorem rbuf_conf_new_agrees (t : Triple) (cap : Nat) (m : Mem) (nid : Nat) :
+    GenF.cc_rbuf_conf_new (confOf t cap) m nid =
+      ((Rbuf.newT t cap m).1.code, (Rbuf.newT t cap m).2.1.map (fun r => ofRbuf r nid (nid + 1)),
+       (Rbuf.newT t cap m).2.2,
+       (if (m.allocT t).1 then (if ((m.allocT t).2.allocT t).1 then nid + 2 else nid + 1) else nid),
+       (if (m.allocT t).1 && !((m.allocT t).2.allocT t).1 then [nid] else []), false) := by
   unfold GenF.cc_rbuf_conf_new Rbuf.newT confOf
   by_cases a1 : (m.allocT t).1 = true
   · by_cases a2 : ((m.allocT t).2.allocT t).1 = true
-    · simp [a1, a2, ofRbuf, codes]
-    · simp [a1, a2, codes]
-  · simp [a1, codes]
+    · simp [a1, a2, ofRbuf, codes, GenF.isDead]
+    · simp [a1, a2, codes, GenF.isDead, GenF.ring_buffer.zero]
+  · simp [a1, codes, GenF.isDead]
 
 /-- `cc_rbuf_conf_init`: whatever the record contained, it now holds the default capacity of the header
 and the C library's triple -/
@@ -128,21 +139,22 @@ theorem rbuf_conf_init_agrees (u : GenF.ring_buffer_conf) :
   simp <;> decide
 
 /-- `cc_rbuf_new`: whatever the uninitialised local configuration contained, it is `cc_rbuf_conf_new` with
-the header's default capacity on the C library's triple -/
-theorem rbuf_new_agrees (u : GenF.ring_buffer_conf) (m : Mem) :
-    GenF.cc_rbuf_new u m =
+the header's default capacity on the C library's triple (whose allocations are never refused) -/
+theorem rbuf_new_agrees (u : GenF.ring_buffer_conf) (m : Mem) (nid : Nat) :
+    GenF.cc_rbuf_new u m nid =
       ((Rbuf.newT .libc Gen.DEFAULT_CC_RBUF_CAPACITY m).1.code,
-       (Rbuf.newT .libc Gen.DEFAULT_CC_RBUF_CAPACITY m).2.1.map ofRbuf,
-       (Rbuf.newT .libc Gen.DEFAULT_CC_RBUF_CAPACITY m).2.2, false) := by
+       (Rbuf.newT .libc Gen.DEFAULT_CC_RBUF_CAPACITY m).2.1.map (fun r => ofRbuf r nid (nid + 1)),
+       (Rbuf.newT .libc Gen.DEFAULT_CC_RBUF_CAPACITY m).2.2, nid + 2, [], false) := by
   unfold GenF.cc_rbuf_new
   simp only [rbuf_conf_init_agrees, rbuf_conf_new_agrees]
-  simp
+  simp [Mem.allocT]
 
-/-- `cc_rbuf_destroy`: both blocks go back through the buffer's own release pointer; fault-free -/
-theorem rbuf_destroy_agrees (r : Rbuf) (m : Mem) :
-    GenF.cc_rbuf_destroy (ofRbuf r) m = (r.destroy m, false) := by
+/-- `cc_rbuf_destroy`: both blocks go back through the buffer's own release pointer, first the slot array, then
+the struct; exactly the object's two blocks are released; fault-free (the two ids are different) -/
+theorem rbuf_destroy_agrees (r : Rbuf) (m : Mem) (sid bid : Nat) (hd : sid ≠ bid) :
+    GenF.cc_rbuf_destroy (ofRbuf r sid bid) m = (r.destroy m, [sid, bid], false) := by
   unfold GenF.cc_rbuf_destroy Rbuf.destroy ofRbuf
-  simp
+  simp [GenF.isDead, hd]
 
 /-- the hypotheses are satisfiable by a non-trivial state: a full buffer of capacity 3 whose head has
 wrapped; the translated `enqueue` overwrites the oldest item, advances both cursors and does not fault; on a
